@@ -127,9 +127,15 @@ def get_attribute(ctx, obj, name):
         if name == 'indices':
             return lambda ctx, n: slice_indices(ctx, obj, n)
     if isinstance(obj, str):
-        if name == 'format':
-            ctx.dropped.add('str.format')
-            return lambda ctx, *a, **k: SOpaque('str')
+        if name in ('format', 'join'):
+            ctx.dropped.add('str.' + name)
+
+            def fmt(ctx, *a, **k):
+                for x in a:
+                    if hasattr(x, 'sym_iterate') or hasattr(x, 'lazy_items'):
+                        ops.iterate(ctx, x)  # a generator argument is consumed (its element expressions are evaluated)
+                return SOpaque('str')
+            return fmt
         raise Unsupported('str method %s' % name)
     if obj is None or isinstance(obj, (bool, int, float)):
         raise PyRaise('AttributeError', note='%r object has no attribute %r' % (type(obj).__name__, name))
@@ -1081,9 +1087,12 @@ class Interp:
         ctx = self.ctx
         # super()
         if isinstance(n.func, ast.Name) and n.func.id == 'super' and not n.args and not env.has('super'):
-            try:
-                selfobj = env.lookup('self')
-            except KeyError:
+            selfobj = None
+            for nm in ('self', 'cls', 'mcls'):
+                if env.has(nm):
+                    selfobj = env.lookup(nm)
+                    break
+            if selfobj is None:
                 raise Unsupported('super() without self')
             return SuperProxy(self, selfobj)
         f = self.expr(n.func, env)
